@@ -792,7 +792,13 @@ def check_write(case, prev, pattern, n):
     if cap > refcap:
         f.fail('C01', 'capacity', n, 'capacity>model', detail=True,
                capacity=cap, model=refcap)
-        return f
+        # go on: the tag object accepts up to `cap` octets, so the largest
+        # planned length is replaced by the reported capacity to let the
+        # C03 oracle see where such a write lands
+        if n == refcap + 1:
+            n = cap
+        elif n > refcap:
+            return f
     elif cap < refcap:
         f.obs.add('capacity<model')
     if not nd.is_writeable or not nd.is_readable:
